@@ -1297,6 +1297,21 @@ def badsweep_correspond(ctx, c):
             signature='C02:unvalidated-input:' + b['checker'], found_input=True, theorem='invalid_rejected',
             replay={'python': b['python'], 'bytes': b['bytes'], 'observed': b['what'],
                     'expected': 'an exception (ValueError: ... has bad input) and no bytes'}))
+    seen_r = set()
+    for b in res.get('ratebad', []):
+        if b['checker'] in seen_r:
+            continue
+        seen_r.add(b['checker'])
+        rejected = [r_ for r_, ok_ in b['single'].items() if not ok_ and r_ in b['mix']]
+        c.failures.append(Failure(
+            'correspondence',
+            'rate rule not applied element by element: %s accepts %s=[%s] and emits bytes, although a %s signal alone in that '
+            'argument is rejected (input check: %s)' % (b['ctor'], b['arg'], ', '.join(b['mix']), ' / '.join(rejected), b['checker']),
+            signature='C02:rate-rule-not-elementwise:' + b['checker'], found_input=True, theorem='invalid_rejected',
+            replay={'python': b['python'], 'observed': 'accepted', 'single_element_lists': b['single'],
+                    'expected': 'rejected like its worst element'}))
+    c.count('sweep:rate-lists-tried', res['stats'].get('rate-singletons', 0) + res['stats'].get('rate-mixes', 0))
+
     # every constructor that builds: the definition around it goes through the same byte-level stages as the
     # generated programs (model parser, wf_def, model writer, library reader vs mirror, live objects, operators)
     # and through the independent reader -- every installed class with its own writer/reader hooks is emitted
